@@ -369,6 +369,8 @@ pub struct Model {
     pub local_requests: Vec<(u32, VT, u32)>,
     /// probes accepted by an injection API: (func, magic, mode, api, instr)
     pub accepted_probes: Vec<(u32, i32, Mode, Api, u32)>,
+    /// body of every probe with a magic, as the caller built it (references are caller IDs)
+    pub probe_bodies: std::collections::BTreeMap<i32, Vec<Ins>>,
 }
 
 /// Region removed by a block-alternate on instruction `i`: opener..=matching end for
@@ -488,6 +490,7 @@ impl Model {
             type_requests: vec![],
             local_requests: vec![],
             accepted_probes: vec![],
+            probe_bodies: Default::default(),
         };
         let fname = |i: u32| base.names.funcs.iter().find(|(k, _)| *k == i).map(|(_, n)| n.clone());
         let gname = |i: u32| base.names.globals.iter().find(|(k, _)| *k == i).map(|(_, n)| n.clone());
@@ -1165,6 +1168,7 @@ impl Model {
             Op::Inject { func, api, sites } => {
                 let f = *func;
                 let mut accepted = vec![];
+                let mut bodies = vec![];
                 {
                     let l = self.local_mut(f).unwrap();
                     for s in sites {
@@ -1204,10 +1208,14 @@ impl Model {
                             Mode::FuncExit => push(&mut l.exit),
                         }
                         accepted.push((f, s.magic, s.mode, *api, s.instr));
+                        if s.magic != 0 {
+                            bodies.push((s.magic, s.body.clone()));
+                        }
                     }
                 }
                 // replay in order: an empty (block-)alternate replaces whatever replacement was
                 // requested before it
+                self.probe_bodies.extend(bodies);
                 for a in accepted {
                     let wiped = match a.2 {
                         Mode::EmptyAlternate => Some(Mode::Alternate),
